@@ -332,7 +332,13 @@ pub fn test_merged(c: &MergedCase, ctx: &mut CaseCtx) -> Result<(), String> {
         .enumerate()
         .map(|(i, ws)| {
             let mut m = MutableDictionary::new();
-            m.extend_words(ws.iter().map(|w| (chars(w), child_meta(i))));
+            // in half of the cases the first child plays the curated dictionary: its entries are
+            // restricted to one dialect, the other children's (user dictionaries) are not
+            let mut meta = child_meta(i);
+            if i == 0 && c.query.chars().count() % 2 == 0 {
+                meta.dialect = Some(harper_core::Dialect::British);
+            }
+            m.extend_words(ws.iter().map(|w| (chars(w), meta.clone())));
             Arc::new(m)
         })
         .collect();
@@ -343,7 +349,15 @@ pub fn test_merged(c: &MergedCase, ctx: &mut CaseCtx) -> Result<(), String> {
     let q = chars(&c.query);
     let any_contains = kids.iter().any(|k| k.contains_word(&q));
     let any_exact = kids.iter().any(|k| k.contains_exact_word(&q));
-    let first_meta = kids.iter().find_map(|k| k.get_word_metadata(&q).cloned());
+    // union: an entry valid in every dialect takes precedence over a dialect-restricted one
+    let first_meta = kids
+        .iter()
+        .filter_map(|k| k.get_word_metadata(&q).cloned())
+        .find(|m| m.dialect.is_none())
+        .or_else(|| kids.iter().find_map(|k| k.get_word_metadata(&q).cloned()));
+    let restricted_and_free = kids.iter().filter_map(|k| k.get_word_metadata(&q)).any(|m| m.dialect.is_some())
+        && kids.iter().filter_map(|k| k.get_word_metadata(&q)).any(|m| m.dialect.is_none());
+    ctx.class_if(restricted_and_free, "dialect_restricted_in_one_child_free_in_another");
     let first_cap = kids
         .iter()
         .find_map(|k| k.get_correct_capitalization_of(&q).map(string));
@@ -546,6 +560,7 @@ pub fn run(run: &mut Run) {
         test_merged,
     );
     run.require_class("merged_is_union", "in_two_children", (n / 50) as u64);
+    run.require_class("merged_is_union", "dialect_restricted_in_one_child_free_in_another", (n / 100) as u64);
     run.require_class("merged_is_union", "other_capitalisation_only", (n / 50) as u64);
 }
 
